@@ -51,7 +51,14 @@ StopClauses(r) ==
      \cup (IF \E i \in DOMAIN r.probes[p].bad : r.probes[p].bad[i] \notin OutVars
              THEN {IF p = "exit_1" THEN "C11_ParameterValueChanged" ELSE "C11_RetryParametersDiffer"} ELSE {})
      : p \in StopProbes })
-Clauses(r) == IF r.kind = "cli" THEN CliClauses(r) ELSE IF r.kind = "stop" THEN StopClauses(r) ELSE IF r.kind = "tok"
+\* kind "dying": `blackdagger restart` against a run that ends while restart is talking to it - the status query after the
+\* stop request gets an answer that is cut off (bytes of the real status server, truncated) and the socket is gone; restart
+\* must go on and start the new run with the parameters of the previous one
+DyingClauses(r) ==
+  (IF r.infra # "" THEN {"INFRA"} ELSE IF ~r.sawCut THEN {} ELSE
+   (IF ~r.restartOk \/ r.runsRecorded # 2 \/ r.run2 # "finished" THEN {"C11_RestartDidNotReplaceTheRun"} ELSE {})
+   \cup (IF r.restartOk /\ r.runsRecorded = 2 /\ ~r.probeOk THEN {"C11_RestartParametersDiffer"} ELSE {}))
+Clauses(r) == IF r.kind = "dying" THEN DyingClauses(r) ELSE IF r.kind = "cli" THEN CliClauses(r) ELSE IF r.kind = "stop" THEN StopClauses(r) ELSE IF r.kind = "tok"
                 THEN (IF ~r.err /\ StringifyAll(Tokenize(r["in"])) # r.out THEN {"DRIFT_TokenizerDiffers"} ELSE {})
               ELSE RunClauses(r)
 TInit == l = 1 /\ bad = 0 /\ ps = <<>>
